@@ -33,6 +33,7 @@ type c10Scenario struct {
 	faults      []vs.Fault
 	faultRounds int
 	cureRound   int
+	lateFault   string // statement class that keeps failing on the hosts with an SQL error for the whole run ("" none)
 }
 
 func (sc c10Scenario) String() string {
@@ -143,6 +144,10 @@ func c10Run(c *vs.Case, t *testing.T, sc c10Scenario) (sig, msg string) {
 			if st.Target == master {
 				return
 			}
+			if sc.lateFault == "start-after-reset" {
+				// the last statement of the reset method fails: the attempt failed, but it was made
+				w.Faults = append(w.Faults, &vs.Fault{Target: st.Target, Class: "start_replica", Nth: 1, Kind: "err", Code: 1205})
+			}
 			key := st.Issuer + ">" + st.Target
 			why := ""
 			switch {
@@ -199,7 +204,14 @@ func c10Run(c *vs.Case, t *testing.T, sc c10Scenario) (sig, msg string) {
 		step()
 	}
 	s.w.ClearFaults()
-	// ---- fault-free iterations until nothing changes (time jumps cover the repair cooldowns)
+	if sc.lateFault != "" && sc.lateFault != "start-after-reset" {
+		// a statement of the repair methods keeps failing on the broken hosts: failed attempts
+		// have to count against the limit and the cooldown just like successful ones
+		for h := range poisoned {
+			s.w.AddFault(&vs.Fault{Target: h, Class: sc.lateFault, Nth: 1, Kind: "err", Code: 1205, Sticky: true})
+		}
+	}
+	// ---- iterations until nothing changes (time jumps cover the repair cooldowns)
 	stable, last := 0, ""
 	minRun := time.Duration(0)
 	if len(poisoned) > 0 {
@@ -276,6 +288,9 @@ func c10Run(c *vs.Case, t *testing.T, sc c10Scenario) (sig, msg string) {
 		if !h.RO {
 			return fail("c10-replica-writable", "%s (initially %+v) is still writable after %d iterations", name, nd, rounds)
 		}
+		if sc.lateFault != "" && sc.lateFault != "start-after-reset" && poisoned[name] {
+			continue // a repair statement never succeeds on this host: only the safety clauses apply to it
+		}
 		if h.Chan == nil || h.Chan.Source != master {
 			return fail("c10-replica-not-following", "%s (initially %+v) is not a replica of %s: channel %+v", name, nd, master, h.Chan)
 		}
@@ -302,7 +317,7 @@ func c10Run(c *vs.Case, t *testing.T, sc c10Scenario) (sig, msg string) {
 // TestVerifC10: repair from generated initial states, with failing statements.
 func TestVerifC10(t *testing.T) {
 	stt := vs.NewStats(t, "C10")
-	stt.Rule = "3-4 HA hosts with a recorded, reachable master h1 and an unregistered server d1 on the same network; initial state drawn per host from read_only {off, on, super} x offline x semi-sync master/slave flags x replication {ok, from another replica, from d1, none (claims to be master, 0-2 own transactions), IO stopped, SQL stopped, both stopped, SQL error persistent, SQL error cured after a drawn iteration}; semi_sync on/off, aggressive repair on/off, max attempts 1-3, cooldown 10s; 0-4 statements failing (error / connection cut before or after execution / hang) at drawn positions during the first 0-6 iterations; then fault-free iterations with time jumps until the observable state is stable; oracles: at every statement (none reaches d1, no server pointed at itself or at d1, RESET REPLICA ALL only with aggressive repair, not before (max_attempts+1) cooldowns, at most max_attempts per host, cooldown apart), master key unchanged after every iteration, end state as the statement lists; non-trivial = at least one host started in a state needing repair"
+	stt.Rule = "3-4 HA hosts with a recorded, reachable master h1 and an unregistered server d1 on the same network; initial state drawn per host from read_only {off, on, super} x offline x semi-sync master/slave flags x replication {ok, from another replica, from d1, none (claims to be master, 0-2 own transactions), IO stopped, SQL stopped, both stopped, SQL error persistent, SQL error cured after a drawn iteration}; semi_sync on/off, aggressive repair on/off, max attempts 1-3, cooldown 10s; 0-4 statements failing (error / connection cut before or after execution / hang) at drawn positions during the first 0-6 iterations; optionally one statement class of the repair methods (START/STOP REPLICA, CHANGE SOURCE, offline_mode) failing on the broken hosts for the whole run; then fault-free iterations with time jumps until the observable state is stable; oracles: at every statement (none reaches d1, no server pointed at itself or at d1, RESET REPLICA ALL only with aggressive repair, not before (max_attempts+1) cooldowns, at most max_attempts per host, cooldown apart), master key unchanged after every iteration, end state as the statement lists; non-trivial = at least one host started in a state needing repair"
 	stt.Assumptions = simAssumptions
 	stt.Check(t, vs.CheckOpts{Bubble: true}, func(c *vs.Case) {
 		sc := c10Scenario{n: c.Src.Int("hosts", 3, 4), semi: c.Src.Bool("semi_sync"), aggressive: c.Src.Bool("aggressive_repair"), maxAttempts: c.Src.Int("max_attempts", 1, 3)}
@@ -344,6 +359,10 @@ func TestVerifC10(t *testing.T) {
 			c.Class("with-failing-statements")
 		}
 		sc.cureRound = c.Src.Int("cure_round", 1, 12)
+		sc.lateFault = c.Src.Pick("statement_that_keeps_failing_on_broken_hosts", "", "", "start_replica", "change_source", "stop_replica", "offline_on", "start-after-reset", "start-after-reset")
+		if sc.lateFault != "" {
+			c.Class("repair-statement-keeps-failing:" + sc.lateFault)
+		}
 		if needs {
 			c.NonTrivial()
 		}
